@@ -98,8 +98,12 @@ impl BitBuffer {
     /// Sets the `write_position` to `read_position + max_read_len` for the call of the given
     /// closure
     pub fn with_max_read<T, F: Fn(&mut Self) -> T>(&mut self, max_read_len: usize, f: F) -> T {
-        let before =
-            core::mem::replace(&mut self.write_position, self.read_position + max_read_len);
+        // never beyond what has been written (and no overflow for a huge limit)
+        let limit = self
+            .read_position
+            .saturating_add(max_read_len)
+            .min(self.write_position);
+        let before = core::mem::replace(&mut self.write_position, limit);
         let result = f(self);
         self.write_position = before;
         result
